@@ -1300,7 +1300,7 @@ def check_C06(rep, fl):
     # every key add() un-charges is reported in the victim list (so that the processor removes its entry)
     import props_policy
     props_store.keep_rules(rep, fl, props_policy.check_C01, {"R01.3"})
-    props_store.keep_rules(rep, fl, props_policy.check_C07, {"R07.6"})
+    props_store.keep_rules(rep, fl, props_policy.check_C07, {"R07.6", "R07.3"})   # (R07.3: candidates are charged keys: the pool is refilled from key_costs on every call)
     # entries leave the store, and charges are released, only at the audited removal sites (each of which does both)
     props_store.check_removal_inventory(rep, fl)
     check_handle_item_pairing(rep, fl)
